@@ -197,6 +197,66 @@ ChildResult run_child(const Plan &p, int armed, double timeout_s = 120) {
     return cr;
 }
 
+// Re-run, in one fresh child process, the run indices first, first+step, ... <= upto (what one batch worker executed).
+// Used when a violation does not reproduce from its plan alone: a library that keeps writable state between calls
+// makes a run depend on the runs before it in the same process.
+struct SeqResult { bool ok = false, violated = false; int prop = PR_NONE; std::string cls, detail; int64_t index = -1; };
+SeqResult run_child_seq(const Args &a, int armed, uint64_t first, uint64_t step, uint64_t upto, uint64_t nbase, double timeout_s = 900) {
+    SeqResult sr;
+    int fd[2];
+    if (pipe(fd) != 0) return sr;
+    Beacon *b = (Beacon *)mmap(nullptr, sizeof(Beacon), PROT_READ | PROT_WRITE, MAP_SHARED | MAP_ANONYMOUS, -1, 0);
+    memset((void *)b, 0, sizeof(Beacon));
+    b->run = -1;
+    fflush(stdout); fflush(stderr);
+    pid_t pid = fork();
+    if (pid == 0) {
+        close(fd[0]);
+        g_beacon = b;
+        int dn = open("/dev/null", O_WRONLY); if (dn >= 0) { dup2(dn, 2); close(dn); }
+        Stats st;
+        Json j = Json::obj();
+        j.set("violated", false);
+        for (uint64_t i = first; i <= upto; i += step) {
+            b->run = (int64_t)i;
+            Plan p = plan_for_index(a, armed, i, nbase);
+            RunResult rr = execute_plan(p, armed, st);
+            if (rr.viol.set) {
+                j.set("violated", true); j.set("prop", rr.viol.prop); j.set("cls", rr.viol.cls); j.set("detail", rr.viol.detail); j.set("index", (long long)i);
+                break;
+            }
+        }
+        std::string s = j.str();
+        ssize_t n = write(fd[1], s.data(), s.size()); (void)n;
+        close(fd[1]);
+        _exit(0);
+    }
+    close(fd[1]);
+    std::string data; char buf[4096];
+    double t0 = now_s();
+    int flags = fcntl(fd[0], F_GETFL, 0); fcntl(fd[0], F_SETFL, flags | O_NONBLOCK);
+    int status = 0; bool reaped = false, timed_out = false;
+    for (;;) {
+        ssize_t n = read(fd[0], buf, sizeof buf);
+        if (n > 0) { data.append(buf, (size_t)n); continue; }
+        if (n == 0) break;
+        if (!reaped && waitpid(pid, &status, WNOHANG) == pid) { reaped = true; while ((n = read(fd[0], buf, sizeof buf)) > 0) data.append(buf, (size_t)n); break; }
+        if (now_s() - t0 > timeout_s) { timed_out = true; kill(pid, SIGKILL); break; }
+        usleep(1000);
+    }
+    close(fd[0]);
+    if (!reaped) waitpid(pid, &status, 0);
+    int64_t at = b->run;
+    munmap((void *)b, sizeof(Beacon));
+    if (timed_out) { sr.ok = sr.violated = true; sr.prop = armed; sr.cls = "hang"; sr.index = at; sr.detail = "sequence did not finish"; return sr; }
+    if (WIFSIGNALED(status)) { sr.ok = sr.violated = true; sr.prop = armed; sr.cls = "crash:" + sig_name(WTERMSIG(status)); sr.index = at; sr.detail = "process died with " + sig_name(WTERMSIG(status)); return sr; }
+    Json j;
+    if (!Json::parse(data, j) || j.t != Json::OBJ) return sr;
+    sr.ok = true; sr.violated = j.at("violated").as_b();
+    sr.prop = (int)j.at("prop").as_i(); sr.cls = j.at("cls").as_s(); sr.detail = j.at("detail").as_s(); sr.index = j.at("index").as_i(-1);
+    return sr;
+}
+
 // ------------------------------------------------------------------ minimiser
 struct Minimiser {
     int armed; std::string cls; int execs = 0, budget = 2500;
@@ -362,6 +422,22 @@ int cmd_replay(const Args &a) {
     if (!read_file(a.file, text)) { fprintf(stderr, "cannot read %s\n", a.file.c_str()); return 2; }
     Json j;
     if (!Json::parse(text, j)) { fprintf(stderr, "bad replay file\n"); return 2; }
+    if (j.at("kind").as_s() == "sequence") {
+        Args b = a;
+        b.engine = j.at("engine").as_s(); b.prop = j.at("property").as_s(); b.tier = j.at("tier").as_s(); b.seed = j.at("batch_seed").as_u();
+        b.no_baseline = j.at("no_baseline").as_b();
+        int armed = prop_from_name(b.prop);
+        uint64_t nbase = b.no_baseline ? 0 : baseline_count(b.engine, armed, b.tier == "thorough");
+        SeqResult sr = run_child_seq(b, armed, j.at("first").as_u(), j.at("step").as_u(1), j.at("upto").as_u(), nbase);
+        if (!sr.ok) { fprintf(stderr, "replay: harness failure\n"); return 2; }
+        if (sr.violated && sr.prop == armed) {
+            printf("VIOLATION property=%s replay=%s\n", b.prop.c_str(), a.file.c_str());
+            printf("  class=%s run=%lld %s\n", sr.cls.c_str(), (long long)sr.index, sr.detail.c_str());
+            return 1;
+        }
+        printf("replay: no violation of %s (variant %s)\n", b.prop.c_str(), g_variant);
+        return 0;
+    }
     Plan p;
     if (!plan_from_json(j.at("plan"), p)) { fprintf(stderr, "bad plan in replay file\n"); return 2; }
     int armed = prop_from_name(j.at("property").as_s());
@@ -585,7 +661,44 @@ int cmd_run(const Args &a) {
         // nondeterminism, recorded in the replay file, not a reason to withhold the violation
         bool same = r1.ok && r2.ok && r1.violated && r2.violated && r1.prop == armed && r2.prop == armed && r1.cls == r2.cls;
         bool ehash_stable = same && r1.ehash == r2.ehash;
+        bool seq_handled = false;
         if (!same) {
+            // not reproducible from the plan alone: does it reproduce as the tail of what that worker process ran before it?
+            uint64_t first = (uint64_t)vi % (uint64_t)J;
+            SeqResult s1 = run_child_seq(a, armed, first, (uint64_t)J, (uint64_t)vi, nbase), s2 = run_child_seq(a, armed, first, (uint64_t)J, (uint64_t)vi, nbase);
+            if (s1.ok && s2.ok && s1.violated && s2.violated && s1.prop == armed && s2.prop == armed && s1.cls == s2.cls && s1.index == s2.index) {
+                seq_handled = true;
+                mkdir(a.replay_dir.c_str(), 0777);
+                std::string path = a.replay_dir + "/" + a.prop + "-" + g_variant + "-" + std::to_string((unsigned long long)a.seed) + "-seq" + std::to_string((long long)s1.index) + ".json";
+                Json rj = Json::obj();
+                rj.set("kind", "sequence"); rj.set("property", a.prop); rj.set("class", s1.cls); rj.set("detail", s1.detail);
+                rj.set("signature", std::string(a.prop) + ":" + s1.cls + "@cross-run-state");
+                rj.set("variant", g_variant); rj.set("engine", a.engine); rj.set("tier", a.tier);
+                rj.set("batch_seed", (unsigned long long)a.seed); rj.set("first", (unsigned long long)first); rj.set("step", J); rj.set("upto", (long long)s1.index);
+                rj.set("no_baseline", a.no_baseline); rj.set("tree", a.tree);
+                rj.set("explanation", "the final run of this sequence violates the property only when the earlier runs were executed in the same process: the library carries writable state from one call history to the next");
+                write_file(path, rj.str(1));
+                char exe[4096]; ssize_t n = readlink("/proc/self/exe", exe, sizeof exe - 1);
+                int st = -1;
+                if (n > 0) {
+                    exe[n] = 0; fflush(stdout);
+                    pid_t pid = fork();
+                    if (pid == 0) { int dn = open("/dev/null", O_WRONLY); if (dn >= 0) { dup2(dn, 1); dup2(dn, 2); } execl(exe, exe, "replay", path.c_str(), (char *)nullptr); _exit(99); }
+                    waitpid(pid, &st, 0);
+                }
+                if (WIFEXITED(st) && WEXITSTATUS(st) == 1) {
+                    printf("VIOLATION property=%s replay=%s\n", a.prop.c_str(), path.c_str());
+                    printf("  class=%s variant=%s run=%lld (reproduces only after the %llu runs the same process executed before it: state is carried between unrelated calls)\n", s1.cls.c_str(), g_variant, (long long)s1.index, (unsigned long long)(((uint64_t)s1.index - first) / (uint64_t)J));
+                    printf("  %s\n", s1.detail.c_str());
+                    Json v = Json::obj(); v.set("class", s1.cls); v.set("signature", std::string(a.prop) + ":" + s1.cls + "@cross-run-state"); v.set("detail", s1.detail); v.set("replay", path); v.set("run_index", (long long)s1.index);
+                    res.set("violation", v);
+                    rc = 1;
+                } else seq_handled = false;
+            }
+        }
+        if (seq_handled) {
+            // reported above
+        } else if (!same) {
             fprintf(stderr, "HARNESS-FAULT: run %lld (seed %llu) failed in the batch (%s) but does not reproduce deterministically (%s/%s)\n", (long long)vi,
                     (unsigned long long)p.seed, crash_cls.c_str(), r1.cls.c_str(), r2.cls.c_str());
             res.set("harness_fault", "violation did not reproduce deterministically");
